@@ -31,6 +31,16 @@ const BASES: &[&str] = &[
 /// a reader computes on it may fall inside a character
 fn long_weight_text(rng: &mut Rng) -> String {
     let mut s = String::new();
+    if rng.chance(1, 4) {
+        // nothing but digits, beyond every integer width (and, from 310 digits, beyond the largest float)
+        if rng.chance(1, 4) {
+            s.push(*rng.pick(&['-', '+']));
+        }
+        for _ in 0..*rng.pick(&[19usize, 20, 21, 25, 39, 40, 80, 308, 309, 310, 400]) {
+            s.push((b'0' + rng.below(10) as u8) as char);
+        }
+        return s;
+    }
     if rng.chance(1, 2) {
         s.push_str(*rng.pick(&["0.000", "12", "1e", "-", "3.14159265358979", "0.1"]));
     }
@@ -127,7 +137,7 @@ fn nth_exhaustive(mut i: usize) -> (usize, Fault, usize) {
 // ---- generated documents ----------------------------------------------------------------------
 
 const NAMES: &[&str] = &["a", "b", "n1", "n10", "x&amp;y", "", " ", "é", "&lt;", "q\"", "&#65;", "n 2", "a_name_that_is_longer_than_sixty_four_characters_0123456789_0123456789_0123456789", "R&amp;D", "&#38;"];
-const WEIGHT_TEXTS: &[&str] = &["1", "1.5", "-2", "0", "1e3", "abc", "", " ", "\n   ", " 1", "1 ", "1e999", "nan", "NaN", "inf", "-inf", "0x10", "1,5", "+1", ".5", "5.", "1e-400", "１"];
+const WEIGHT_TEXTS: &[&str] = &["1", "1.5", "-2", "0", "1e3", "abc", "", " ", "\n   ", " 1", "1 ", "1e999", "nan", "NaN", "inf", "-inf", "0x10", "1,5", "+1", ".5", "5.", "1e-400", "１", "4294967296", "9223372036854775807", "9223372036854775808", "-9223372036854775809", "18446744073709551615", "18446744073709551616", "340282366920938463463374607431768211456", "100000000000000000000000000000000000000000", "0000000000000000000000000000001", "-0", "-0.0"];
 
 fn grammar_doc(rng: &mut Rng) -> String {
     let q = if rng.chance(1, 5) { '\'' } else { '"' };
